@@ -61,13 +61,19 @@ fn run(steps: &[Step]) -> Result<(), String> {
     let mut transition = |c: &mut MqttClientImpl, st: ClientImplState, alive: &mut bool| {
         if c.transition_to_state(st).is_err() { *alive = false; }      // both event loops exit when a transition fails
     };
+    let mut events_at_close: Option<usize> = None;
     for st in steps {
         if !loop_alive { break; }
+        if matches!(st, Step::Shutdown) && events_at_close.is_none() { events_at_close = Some(log.lock().unwrap().len()); }
         match st {
             Step::Start => c.handle_incoming_operation(OperationOptions::Start(None)),
             Step::StopPlain => c.handle_incoming_operation(OperationOptions::Stop(StopOptionsInternal { disconnect: None })),
             Step::StopWithDisconnect => c.handle_incoming_operation(OperationOptions::Stop(StopOptionsInternal { disconnect: Some(Box::new(MqttPacket::Disconnect(DisconnectPacket::default()))) })),
-            Step::Shutdown => c.handle_incoming_operation(OperationOptions::Shutdown()),
+            Step::Shutdown => {
+                c.handle_incoming_operation(OperationOptions::Shutdown());
+                // every state loop of both drivers evaluates the optional transition right after handling an operation, before anything else can happen
+                if let Some(next) = c.compute_optional_state_transition() { transition(&mut c, next, &mut loop_alive); }
+            }
             Step::Advance => { if let Some(next) = c.compute_optional_state_transition() { transition(&mut c, next, &mut loop_alive); } }
             Step::TransportUp => { if c.get_current_state() == ClientImplState::Connecting { transition(&mut c, ClientImplState::Connected, &mut loop_alive); } }
             Step::TransportDown => {
@@ -120,6 +126,12 @@ fn run(steps: &[Step]) -> Result<(), String> {
     }
     let evs = log.lock().unwrap().clone();
     grammar_ok(&evs)?;
+    // C12 "close is terminal": once close() has been requested no new connection attempt is ever made
+    // (a start() that this harness slips in between the close request and the driver's next transition check is not something the real loops
+    // can produce - they act on every operation before reading the next one - so such histories are not judged)
+    let first_close = steps.iter().position(|s| matches!(s, Step::Shutdown));
+    let restarted = first_close.map(|i| steps[i..].iter().any(|s| matches!(s, Step::Start))).unwrap_or(false);
+    if let (Some(n), false) = (events_at_close, restarted) { if evs[n..].iter().any(|e| *e == Ev::Attempt) { return Err(format!("a connection attempt was made after close(): events {:?}, close requested after event {}", evs, n)); } }
     // "the loop never dies": a transition may only fail ... never (close is the only terminal)
     if !loop_alive { return Err(format!("event loop would exit (a transition returned Err); events so far {:?}", evs)); }
     Ok(())
@@ -142,7 +154,19 @@ fn client_event_grammar_and_loop_survival() {
             let mut n = seq.clone(); n.push(*s); stack.push(n);
         }
     }
-    println!("BOUNDED client_event_grammar_and_loop_survival cases={} bound=all step sequences of length {} over {} driver steps (start/stop/stop+DISCONNECT/close/transport up-down/CONNACK ok-bad/service)", cases, depth, STEPS.len());
+    // the same grammar from an established connection (prefix start, connecting, transport up, CONNACK) followed by every suffix of length 4/5
+    let prefix = [Step::Start, Step::Advance, Step::TransportUp, Step::ConnackOk];
+    let sdepth = if super::tier_thorough() { 5 } else { 4 };
+    let mut stack: Vec<Vec<Step>> = vec![prefix.to_vec()];
+    while let Some(seq) = stack.pop() {
+        if seq.len() == prefix.len() + sdepth {
+            cases += 1;
+            if let Err(e) = run(&seq) { if fails.len() < 30 { fails.push(format!("{:?} :: {}", seq, e)); } }
+            continue;
+        }
+        for s in STEPS.iter() { let mut n = seq.clone(); n.push(*s); stack.push(n); }
+    }
+    println!("BOUNDED client_event_grammar_and_loop_survival cases={} bound=all step sequences of length {} over {} driver steps (start/stop/stop+DISCONNECT/close/transport up-down/CONNACK ok-bad/service), plus every suffix of length {} after an established connection", cases, depth, STEPS.len(), sdepth);
     for f in &fails { println!("BOUNDED-FAIL client_event_grammar_and_loop_survival {}", f); }
     assert!(fails.is_empty());
 }
